@@ -578,7 +578,7 @@ def main(ctx):
         if regen_ok and t not in dec_bad and not any(os.path.basename(e["file"]) != "DecTie.lean" or e["decl"] in ("?", "lake build") for e in dec_errs):
             ctx.obligation("tie:GojaModel.C05.DecTie." + t, "tie", True, "translated function proved equal to the model")
     for t in ("numSites_ok", "wrappers_ok", "wrappers_canonical", "maxInt_tie", "whitespace_tie",
-              "strnum_tie", "includes_tie", "mathsign_tie", "parseint_tie"):
+              "strnum_tie", "includes_tie", "mathsign_tie", "bigint_tie", "parseint_tie"):
         # Tie theorems are `rfl`/`decide` over regenerated data: checked by the lake build above; a failing one is already a
         # broken obligation named lean:…Tie.lean:<theorem>; here the ones that still check are recorded as discharged
         if regen_ok and t not in tie_bad and not any(os.path.basename(e["file"]).startswith("C05_") or e["decl"] in ("?", "lake build") for e in tie_errs):
